@@ -207,6 +207,32 @@ def equal_twin_cases(bases):
     return out
 
 
+def upus_leftover_cases():
+    """base maps as editors leave them (unit-property slots holding data that UPUS flags as unused, two of them with equal
+    contents) to which a trigger is added that uses an index-less unit-property set equal to those slots: whichever slot the
+    save refers to must be flagged as used"""
+    out = []
+    for k in range(3):
+        base = SC.MapGen(random.Random(400 + k), "editor", nloc=255, all_sections=True, ntrig=1, upus_zero=True, cuwp_twins=True,
+                         identical_twins=True, uprp_prefilled=(k == 1)).build()
+        v = SC.SpecView(base)
+        slots = [tuple(sorted(c.items())) for c in (v.cuwps or [])]
+        twins = [i for i, c in enumerate(slots) if any(x for _, x in c) and slots.count(c) >= 2]
+        for i in twins[:2]:
+            raw = v.cuwps[i]
+            if raw["_padding"] or raw["_valid_special_properties_flags"] >= 64 or raw["_valid_unit_properties_flags"] >= 128 or raw["_hitpoints_percentage"] < 1:
+                continue
+            bits = lambda x, n_: [bool((x >> j) & 1) for j in range(n_)]  # noqa
+            tw = [raw["_hitpoints_percentage"], raw["_shieldpoints_percentage"], raw["_energypoints_percentage"],
+                  raw["_resource_amount"], raw["_units_in_hangar"], bits(raw["_flags"], 5),
+                  bits(raw["_valid_special_properties_flags"], 6), bits(raw["_valid_unit_properties_flags"], 7),
+                  bool((raw["_flags"] >> 5) & 1), raw["_padding"], None]
+            out.append((f"upus-leftover:{k}:slot{i + 1}", base,
+                        {"pool": {"locs": [[1, 1, 2, 2, None, None, [True] * 6]], "switches": [], "cuwps": [tw]},
+                         "ops": [_trigs(_cuwp_acts([0]))]}))
+    return out
+
+
 def run(ck: vlib.Check):
     n = 80 if ck.tier == "quick" else 3000
     ck.rule = ("authored scenarios pushed to the format's limits on valid bases: 17..100 conditions / 65..100 actions, "
@@ -252,7 +278,7 @@ def run(ck: vlib.Check):
                          {"kind": "invalid", "label": label, "base_hex": base.hex(), "spec": spec, "problems": problems[:5]}, True)
         else:
             outcomes["valid-output"] += 1
-    for label, base, spec in handbuilt_cases(fixed) + equal_twin_cases(fixed):
+    for label, base, spec in handbuilt_cases(fixed) + equal_twin_cases(fixed) + upus_leftover_cases():
         r = A.run_impl(base, spec)
         ck.evaluations += 1
         ck.note_case(label)
